@@ -15,4 +15,5 @@ InAlphabet == << [n |-> "a", cp |-> 97, utf8 |-> <<97>>, ent |-> <<>>, ws |-> FA
 InGen == {"a", "&"}
 InCharsets == {"ascii", "utf-8"}
 InCases == << >>
+InSessStrings == << <<"a", "&">> >>
 =============================================================================
